@@ -107,4 +107,26 @@ def moduleRevision : List Nat → Rev
   | [] => none
   | r :: rs => some (rs.foldl max r)
 
+/-- the options of a `mibdump` command line as far as borrowers are concerned -/
+inductive Opt where
+  | borrower (url : String)     -- `--mib-borrower=URL`
+  | genTexts                    -- `--generate-mib-texts`
+  | other
+  deriving DecidableEq, Repr
+
+def Opt.isGen : Opt → Bool
+  | .genTexts => true
+  | _ => false
+
+/-- the script reads its options left to right; `--mib-borrower` files the URL with the value the texts flag has *at that
+moment* (`mibBorrowers.append((opt[1], genMibTextsFlag))`) -/
+def borrowerFlavours : List Opt → Bool → List (String × Bool)
+  | [], _ => []
+  | .borrower u :: r, f => (u, f) :: borrowerFlavours r f
+  | .genTexts :: r, _ => borrowerFlavours r true
+  | .other :: r, f => borrowerFlavours r f
+
+/-- the flavour the run asks for: the flag after all options -/
+def requestFlavour (os : List Opt) : Bool := os.any Opt.isGen
+
 end Pysmi.Cli
